@@ -240,9 +240,20 @@ def find_loops(body):
         if m.start() not in code:
             continue
         kw = m.group(1)
-        # header ends at first '{' at depth 0 (struct literals do not occur in loop headers here)
+        # header ends at first '{' at depth 0 (struct literals do not occur in loop headers here);
+        # for a `for`, braces of the pattern before the `in` keyword are skipped
         depth = 0
-        for off, c in code_positions(body[m.end():]):
+        rest = body[m.end():]
+        seen_in = kw != "for"
+        for off, c in code_positions(rest):
+            if not seen_in:
+                if c in "([{":
+                    depth += 1
+                elif c in ")]}":
+                    depth -= 1
+                elif depth == 0 and re.match(r"\bin\b", rest[off:]) and (off == 0 or not (rest[off - 1].isalnum() or rest[off - 1] == "_")):
+                    seen_in = True
+                continue
             if c in "([":
                 depth += 1
             elif c in ")]":
